@@ -160,7 +160,10 @@ def run_case(sh, s, d, case):
                 dr.trace.append('pack')
                 # a packed storage gives no guarantee for snapshots before the pack time (revision chains are cut):
                 # from now on only queries above the latest pack time are compared
-                packed_T = max(packed_T or T, T)
+                import time as _time
+                pt = TimeStamp(T).timeTime() + 0.001
+                eff = TimeStamp(*_time.gmtime(pt)[:5] + (pt % 60,)).raw()      # the tid the pack time really corresponds to
+                packed_T = max(packed_T or eff, eff)
                 dr.features.add('pack')
                 continue
             if k.startswith('undo'):
